@@ -25,6 +25,7 @@ import json
 import multiprocessing
 import os
 import random
+import re
 import sys
 
 from harness import tlc
@@ -359,15 +360,19 @@ def check_wikis(c, mb, cz, who):
     for i, w in enumerate(mb["wikis"]):
         try:
             got = c.get_wiki(ident=cz[w["ident"]])
-            if got is not c.wikis[i]:
-                out.append(("get_wiki: %s metabook does not return its WikiConf by ident" % who, "got %r" % (got,)))
-            elif got.baseurl != cz[w["baseurl"]]:
-                out.append(("get_wiki: %s WikiConf has another baseurl" % who, "got %r" % (got,)))
-            first = [j for j, v in enumerate(mb["wikis"]) if v["baseurl"] == w["baseurl"]][0]
-            if c.get_wiki(baseurl=cz[w["baseurl"]]) is not c.wikis[first]:
-                out.append(("get_wiki: %s metabook does not return its WikiConf by baseurl" % who, ""))
+            got_b = c.get_wiki(baseurl=cz[w["baseurl"]])
         except Exception as e:                                         # noqa: BLE001
-            out.append(("get_wiki: %s metabook raises %s" % (who, type(e).__name__), "%s: %s" % (type(e).__name__, str(e)[:200])))
+            k, what = _exc_problem(e)
+            out.append((k if k.startswith(HARNESS) else "get_wiki: %s metabook raises %s" % (who, type(e).__name__), what))
+            continue
+        wikis = c.wikis if isinstance(getattr(c, "wikis", None), list) else []
+        if i >= len(wikis) or got is not wikis[i]:
+            out.append(("get_wiki: %s metabook does not return its WikiConf by ident" % who, "got %r" % (got,)))
+        elif getattr(got, "baseurl", None) != cz[w["baseurl"]]:
+            out.append(("get_wiki: %s WikiConf has another baseurl" % who, "got %r" % (got,)))
+        first = [j for j, v in enumerate(mb["wikis"]) if v["baseurl"] == w["baseurl"]][0]
+        if first >= len(wikis) or got_b is not wikis[first]:
+            out.append(("get_wiki: %s metabook does not return its WikiConf by baseurl" % who, "got %r" % (got_b,)))
     return out
 
 
@@ -442,11 +447,23 @@ def mutate_lists(c, M):
     c.wikis.append(mbm.WikiConf(ident="INTRUDER"))
 
 
+HARNESS = "HARNESS-FAULT "       # problem keys with this prefix are machinery errors, never violations
+ID_RX = re.compile(r"^[0-9a-f]{16}$")
+VERIF_DIR = os.path.dirname(os.path.dirname(os.path.abspath(__file__)))
+
+
 def _exc_problem(e):
+    """An exception is behaviour of mwlib only when it was RAISED inside code outside /verif (the
+    innermost traceback frame); an exception raised by the harness's own statements (a missing
+    attribute the check reads, a wrong assumption about an object) is a fault of the check."""
     import traceback
     tb = traceback.extract_tb(e.__traceback__)
-    where = "%s:%s" % (os.path.basename(tb[-1].filename), tb[-1].name) if tb else "?"
-    return ("exception %s at %s" % (type(e).__name__, where), "%s: %s" % (type(e).__name__, str(e)[:300]))
+    where = "%s:%s:%d" % (os.path.basename(tb[-1].filename), tb[-1].name, tb[-1].lineno) if tb else "?"
+    inner = os.path.abspath(tb[-1].filename) if tb else VERIF_DIR
+    if inner.startswith(VERIF_DIR + os.sep) or not tb:
+        return (HARNESS + "%s at %s" % (type(e).__name__, where), "%s: %s" % (type(e).__name__, str(e)[:300]))
+    return ("exception %s at %s:%s" % (type(e).__name__, os.path.basename(tb[-1].filename), tb[-1].name),
+            "%s: %s" % (type(e).__name__, str(e)[:300]))
 
 
 def check_content(st, cz, inv, M):
@@ -491,17 +508,22 @@ def check_content(st, cz, inv, M):
                     bad("roundtrip %s: get_articles() order" % name, "got %r" % ([a.title for a in y.get_articles()],))
                 for k, w in check_wikis(y, want, cz, "reloaded (%s)" % name):
                     bad(k, w)
+            if name == "Collection.dumps" and type(y) is not mbm.Collection:
+                continue                      # reported above: the reloaded object is no Collection
             t2 = dumps(y)
             if t2 != t1:
                 bad("fixedpoint %s: dumps(loads(dumps(x))) != dumps(x)" % name, "%s\n!=\n%s" % (t2[:300], t1[:300]))
         # ---- the checksum is a function of the content
         cks = mbm.calc_checksum(x)
         text = x.dumps()
-        if cks != mbm.calc_checksum(mj.loads(text)):
+        z, z2 = mj.loads(text), mj.loads(text)
+        if type(z) is not mbm.Collection or type(z2) is not mbm.Collection:
+            bad("roundtrip Collection.dumps: reloaded object is a %s" % type(z).__name__, "from %s" % (text[:300],))
+            return cks, problems
+        if cks != mbm.calc_checksum(z):
             bad("checksum: calc_checksum(loads(dumps(x))) != calc_checksum(x)", "")
         # ---- no shared mutable lists between independently built equal metabooks
         x2 = build_api(st, cz, M)
-        z, z2 = mj.loads(text), mj.loads(text)
         mutate_lists(x, M)
         mutate_lists(z, M)
         for who, o in (("API-built", x2), ("loaded", z2)):
@@ -545,8 +567,8 @@ def check_request(st, cz, inv, M, cks):
                 again = (M["nserve"].make_collection_id(dict(req)), M["serve"].make_collection_id(dict(req)))
                 if ids != again:
                     bad("id: not deterministic for one request", "%r then %r" % (ids, again))
-        if not (M["nserve"].collection_id_rex.match(ids[0]) and M["serve"].collection_id_rex.match(ids[1])):
-            bad("id: malformed", repr(ids))
+        if not (isinstance(ids[0], str) and isinstance(ids[1], str) and ID_RX.match(ids[0]) and ID_RX.match(ids[1])):
+            bad("id: malformed (not 16 hex digits)", repr(ids))
         return ids, problems
     except Exception as e:                                             # noqa: BLE001
         bad(*_exc_problem(e))
@@ -674,6 +696,11 @@ def execute(ctx, states, edges, tag):
         if not found:
             ctx.machinery("%d states skipped without any failing state" % skipped)
         ctx.note("%d states were skipped after %d failing states" % (skipped, FAIL_LIMIT))
+    faults = [k for k in sorted(found) if k.startswith(HARNESS)]
+    if faults:
+        cnt, what, i = found[faults[0]]
+        ctx.machinery("the check's own code failed (%s — %s) in %d states, first %s; this is not a verdict about mwlib"
+                      % (faults[0][len(HARNESS):], what, cnt, json.dumps(states[i])[:300]))
     for key in sorted(found):
         cnt, what, i = found[key]
         ctx.violation(key, "%s (%d states; first: %s)" % (what, cnt, json.dumps(states[i])[:400]),
@@ -824,6 +851,8 @@ def replay(ctx, path):
         i, problems = check_state(st, cz, inv, M)
         ids.append(i)
         for key, what in problems:
+            if key.startswith(HARNESS):
+                ctx.machinery("the check's own code failed: %s — %s" % (key[len(HARNESS):], what))
             hit = True
             ctx.violation(key, what, r)
     if r["kind"] == "edge" and None not in ids:
